@@ -290,6 +290,123 @@ class NameScenario(explore.Scenario):
         return len({e[1] for e in hist}) > 1
 
 
+class ClientApiScenario(explore.Scenario):
+    """The same table seen through the client API: real client connections
+    on a real bus calling requestBusName / releaseBusName / getNameOwner /
+    listQueuedBusNameOwners; what the Deferreds deliver must state the
+    caller's relation to the name as the reference table has it."""
+    name = 'C13/client-api'
+    NAME = 'com.ex.N'
+    # (allowReplacement, replaceExisting, doNotQueue, errbackUnlessAcquired)
+    REQUESTS = [(False, False, True, True), (False, False, False, True),
+                (True, True, False, True), (True, False, True, True),
+                (False, True, True, False), (False, False, False, False)]
+
+    def build(self):
+        from mcx.checks import c11
+        w = World()
+        w.sys = c11.System(dict(n=self.params.get('clients', 3),
+                                exporters={}, calls=[]), 'explicit')
+        k = w.sys.n
+        w.model = Model(k, [self.NAME])
+        w.uniq = [p.busName for p in w.sys.cprotos]
+        return w
+
+    def close(self, w):
+        w.sys.close()
+
+    def enabled(self, w):
+        evs = []
+        for c in range(w.sys.n):
+            for ri in range(len(self.REQUESTS)):
+                evs.append(('req', c, ri))
+            evs.append(('rel', c))
+        return evs
+
+    @staticmethod
+    def _outcome(d, sys_):
+        got = []
+        d.addCallbacks(lambda v: got.append(('ok', v)),
+                       lambda f: got.append(
+                           ('err', type(f.value).__name__,
+                            getattr(f.value, 'returnCode', None))))
+        sys_.pump()
+        return got
+
+    def apply(self, w, ev):
+        viol = []
+        m = w.model
+        before = m.key()
+        n = self.NAME
+        replaced = None
+        try:
+            c = ev[1]
+            conn = w.sys.cprotos[c]
+            if ev[0] == 'req':
+                allow, repl, noq, errb = self.REQUESTS[ev[2]]
+                flags = (1 if allow else 0) | (2 if repl else 0) | \
+                    (4 if noq else 0)
+                code, acq, lost, replaced = m.request(c, n, flags)
+                got = self._outcome(conn.requestBusName(
+                    n, allowReplacement=allow, replaceExisting=repl,
+                    doNotQueue=noq, errbackUnlessAcquired=errb), w.sys)
+                if errb and code in (2, 3):
+                    want = [('err', 'FailedToAcquireName', code)]
+                else:
+                    want = [('ok', code)]
+                tag = 'request/code-%d/%s' % (code, 'errback' if errb
+                                              else 'plain')
+            else:
+                code, acq = m.release(c, n)
+                got = self._outcome(conn.releaseBusName(n), w.sys)
+                want = [('ok', code)]
+                tag = 'release/code-%d' % code
+            if got != want:
+                viol.append(('%s/client-api/%s' % (PROP, tag),
+                             '%r in state %r: the Deferred delivered %r, the '
+                             'name table says %r' % (ev, before, got, want)))
+            # read the table back through the API of another client
+            asker = w.sys.cprotos[(c + 1) % w.sys.n]
+            own = self._outcome(asker.getNameOwner(n), w.sys)
+            q = self._outcome(asker.listQueuedBusNameOwners(n), w.sys)
+            if replaced is not None and q and q[0][0] == 'ok' and \
+                    w.uniq[replaced] in q[0][1][1:]:
+                pos = q[0][1].index(w.uniq[replaced]) - 1
+                m.waiters[n].insert(pos, replaced)
+                m.allow[n][replaced] = None
+            if m.owner[n] is None:
+                if not (own and own[0][0] == 'err'):
+                    viol.append(('%s/client-api/owner-of-unowned' % PROP,
+                                 'after %r from %r: getNameOwner gave %r for '
+                                 'a name nobody owns' % (ev, before, own)))
+            else:
+                want_q = [w.uniq[m.owner[n]]] + [w.uniq[x]
+                                                  for x in m.waiters[n]]
+                if own != [('ok', w.uniq[m.owner[n]])]:
+                    viol.append(('%s/client-api/owner' % PROP,
+                                 'after %r from %r: getNameOwner gave %r, '
+                                 'expected %r' % (ev, before, own,
+                                                  w.uniq[m.owner[n]])))
+                elif q != [('ok', want_q)]:
+                    viol.append(('%s/client-api/queue' % PROP,
+                                 'after %r from %r: listQueuedBusNameOwners '
+                                 'gave %r, expected %r' % (ev, before, q,
+                                                           want_q)))
+        except core.HarnessError:
+            raise
+        except Exception as e:
+            return [('%s/client-api/%s/raises-%s' % (PROP, ev[0],
+                                                     type(e).__name__),
+                     'event %r in state %r raised %r' % (ev, before, e))]
+        return viol
+
+    def canon(self, w):
+        return w.model.key()
+
+    def nontrivial(self, hist):
+        return len({e[1] for e in hist}) > 1
+
+
 def _brief(m):
     return (m['type'], m['fields'].get('member') or
             m['fields'].get('error_name'), m['body'])
@@ -330,7 +447,11 @@ def run(ctx):
         'event: reply code, NameAcquired recipients, and GetNameOwner / '
         'ListQueuedOwners for every name are compared with the reference '
         'name table. State = (reference table, digest of the bus and '
-        'per-connection name bookkeeping). non-trivial = history involving '
+        'per-connection name bookkeeping). The same table is also driven '
+        'through the client API (requestBusName with six flag / errback '
+        'combinations, releaseBusName, getNameOwner, '
+        'listQueuedBusNameOwners) of three real client connections on a real '
+        'bus. non-trivial = history involving '
         'more than one client')
     ctx.assumptions = [
         'where a replaced owner goes (queue or nowhere) is left open by the '
@@ -356,6 +477,9 @@ def run(ctx):
         explore.explore(ctx, NameScenario, {'clients': 3, 'names': 2},
                         max_depth=6, label='3 clients, 2 names, depth 6',
                         max_states=300000)
+    explore.explore(ctx, ClientApiScenario, {'clients': 3},
+                    max_depth=3 if ctx.quick else 5,
+                    label='client API on a composed system, 3 clients')
     ctx.bounds = {k: v for k, v in ctx.parts.items()}
 
 
